@@ -17,7 +17,7 @@ Lemma html_tag_names_matches_source (tag : bstr) :
   assoc_s tag html_tag_names = assoc_s tag src_soymsg_htmlTagNames.
 Proof.
   rewrite <- (assoc_s_ext (fun x : bstr => x) bstr_eqb html_tag_names src_soymsg_htmlTagNames);
-    [destruct (assoc_s tag html_tag_names); reflexivity|exact bstr_eqb_true|vm_compute; reflexivity].
+    [destruct (assoc_s tag html_tag_names); reflexivity|exact st_bstr_eqb_true|vm_compute; reflexivity].
 Qed.
 
 (* id.go hash32(str, 0, len(str), seed) as Model/MsgId.v models it *)
@@ -39,7 +39,7 @@ Proof.
   (* the degenerate case is decided on the model's side; the source's own test (whatever its shape) follows by lia *)
   match goal with
   | |- context [if ?d then N.lxor _ _ else _] => destruct d eqn:E
-  end; decide_ifs;
+  end; st_decide_ifs;
     rewrite Z_of_N_lor, Z_of_N_land, Z_of_N_w64, Z_of_N_shiftl, ?Z_of_N_lxor;
     first [ reflexivity | rewrite Z.lor_comm; reflexivity ].
 Qed.
